@@ -237,6 +237,14 @@ class StartRuns(Monitor):
         S, R, M = ref.closure_from(outputs_of, ref.seeds)
         manual = {(n, int(p)) for n, p in self.manual}
         out = []
+        # an instance spawned with a dependency that is never met (e.g. on
+        # an instance no start task leads to) holds the runahead window:
+        # later instances are legitimately never released (a stall the
+        # operator caused); only instances not behind such a blocker must
+        # have run
+        stuck = [p for (_t, p) in S - R - M]
+        if stuck:
+            M = {(t, q) for (t, q) in M if q <= min(stuck)}
         if M:
             out.append(self.viol(
                 'start-closure-instance-never-ran',
